@@ -305,9 +305,9 @@ def undo (s : St) (utid : Nat) : St × List Ev × Out :=
         let a := recs.foldl (undoOne s.hist t.tid)
           { files := s.files, dirty := s.dirty, staged := t.staged, evs := [],
             failures := false, broken := false }
-        let bad := a.failures ∨ a.broken
         ({ s with files := a.files, dirty := a.dirty,
-                  txn := some { t with staged := a.staged, failed := t.failed ∨ bad } },
+                  txn := some { t with staged := a.staged,
+                                       failed := t.failed || a.failures || a.broken } },
          a.evs,
          if a.broken then .err .keyError else if a.failures then .err .undo else .ok)
 
